@@ -535,6 +535,7 @@ func (r *run) stepBlock(s *Step) {
 			"height %d: panic on rolled-back instance=%v, on directly built twin=%v", h, pan, tpan)
 	}
 	r.shadowBlock(sb, pan != nil)
+	r.ckptTick()
 	if pan != nil {
 		r.stop = true
 		c.Logf("B %d panic", h)
